@@ -28,13 +28,17 @@ TECHNIQUE = "Lean 4 proof over the linear order of Q + generated dispatch table 
 
 OPS = ["<", "<=", "==", "!=", ">", ">="]
 NUMS = ["0", "1", "2", "-1", "3/2", "1/2", "0.5", "-7/3", "0.1+0.2", "0.3", "3/10", "1e-3", "10^30", "10^30+1", "1e30",
-        "2^53", "2^53+1", "9007199254740993.0", "5!", "120", "C(5,2)", "10", "4!/5!", "1/5", "0.2", "-0.0"]
+        "2^53", "2^53+1", "9007199254740993.0", "5!", "120", "C(5,2)", "10", "4!/5!", "1/5", "0.2", "-0.0",
+        "C(10,3)", "3!", "C(4,2)", "6", "6!", "10!/7!", "720", "2*3!", "2*C(4,2)", "12", "C(16,2)", "C(5,3)"]
 QTYS = ["1 m", "100 cm", "1 km", "1000 m", "0.001 km", "1 in", "2.54 cm", "1 mi", "1609.344 m", "3 s", "1 min", "60 s", "1 h",
         "1 kg", "1000 g", "1 t", "0 degC", "273.15 K", "32 degF", "1 m^2", "10000 cm^2", "1 ha", "1 m|s", "3.6 km|h", "1 N",
         "1 kg m|s^2", "(1/3) m", "1 usd", "1 l", "1000 ml", "1 pt", "1/2 qt"]
 DIMLESS = ["90 deg", "2 rad", "1 dozen", "12", "(6 m / 1 m)", "6", "1 B", "8 b", "8", "1 hundred", "100", "pi/2 rad", "1.5707963267948966"]
 INSTS = ["#2020-01-01#", "#2020-01-01T00:00:00.000001#", "#2019-12-31T23:59:59#", "#2020#", "#2020-01#", "#2020-02-29T12:00#",
          "#0001-01-01#", "#9999-12-31T23:59:59.999999#", "#2020-01-01T00:00#"]
+# offset-aware instants: comparable among themselves (same moment in different offsets must be ==)
+AWARE = ["#2020-06-01T12:00+02:00#", "#2020-06-01T10:00+00:00#", "#2020-06-01T05:30-04:30#", "#2020-06-01T10:00Z#",
+         "#2020-06-01T10:00:00.000001+00:00#", "#2020-06-01T11:59+02:00#", "#2020-05-31T23:00-11:00#"]
 
 
 def key_of(v, R):
@@ -49,10 +53,16 @@ def key_of(v, R):
         if isinstance(m, (int, Fraction, float)) and not isinstance(m, bool):
             dim = tuple(v.qv.v.xs)
             return ("Q", Fraction(m), "Q|%s|%s" % (num_canon(m), ",".join(map(str, dim))), dim)
-    if isinstance(v, T.Instant) and v.dt.tzinfo is None:
+    if isinstance(v, T.Instant) and v.dt.utcoffset() is None:
         d = v.dt.toordinal() - 1
         us = ((v.dt.hour * 60 + v.dt.minute) * 60 + v.dt.second) * 10**6 + v.dt.microsecond
         return ("T", Fraction(d * 86400 * 10**6 + us), "T|%d|%d" % (d, us))
+    if isinstance(v, T.Instant):
+        import datetime as _dt
+        u = (v.dt - v.dt.utcoffset()).replace(tzinfo=None)      # the moment, in UTC
+        d = u.toordinal() - 1
+        us = ((u.hour * 60 + u.minute) * 60 + u.second) * 10**6 + u.microsecond
+        return ("Z", Fraction(d * 86400 * 10**6 + us), "T|%d|%d" % (d, us))
     return ("other", None, None)
 
 
@@ -72,7 +82,7 @@ def check(ctx):
             nums.append("%d/%d" % (rng.randrange(-30, 30), rng.randrange(1, 12)))
         else:
             nums.append(repr(round(rng.uniform(-5, 5), rng.randrange(0, 4))))
-    pools = {"num": nums, "qty": QTYS, "dimless": DIMLESS, "inst": INSTS}
+    pools = {"num": nums, "qty": QTYS, "dimless": DIMLESS, "inst": INSTS, "aware": AWARE}
     vals = {}
     for pool in pools.values():
         for t in pool:
@@ -97,7 +107,7 @@ def check(ctx):
         ka, kb = vals[a], vals[b]
         if ka[0] in ("err", "other", "bool") or kb[0] in ("err", "other", "bool"):
             continue
-        comparable = (ka[0] == kb[0] == "N") or (ka[0] == kb[0] == "T") or \
+        comparable = (ka[0] == kb[0] == "N") or (ka[0] == kb[0] == "T") or (ka[0] == kb[0] == "Z") or \
                      (ka[0] == kb[0] == "Q" and ka[3] == kb[3]) or \
                      (ka[0] == "Q" and kb[0] == "N" and not any(ka[3])) or (ka[0] == "N" and kb[0] == "Q" and not any(kb[3]))
         for op in OPS:
@@ -118,13 +128,14 @@ def check(ctx):
                     ctx.violation("cmp-kind:" + text, text, "the number 0 or 1, or an error", real, how)
                 if ka[0] == kb[0] == "Q" and k == "ok":
                     ctx.violation("cmp-dim:" + text, text, "error (different dimensions)", real, how)
-            cases.append(("cmp %s %s %s" % (op, ka[2], kb[2]), real, text))
+            if not ({ka[0], kb[0]} == {"T", "Z"}):      # naive-vs-aware is outside the model (a runtime error in the code)
+                cases.append(("cmp %s %s %s" % (op, ka[2], kb[2]), real, text))
     ctx.correspond("cmp", cases)
     # ---- displayed as 0/1, and membership
     shown = 0
     for a, b in pairs[: ctx.n(120, 1200)]:
         ka, kb = vals[a], vals[b]
-        if ka[0] != kb[0] or ka[0] not in ("N", "T") and not (ka[0] == "Q" and ka[3] == kb[3]):
+        if ka[0] != kb[0] or ka[0] not in ("N", "T", "Z") and not (ka[0] == "Q" and ka[3] == kb[3]):
             continue
         op = rng.choice(OPS)
         text = "(%s) %s (%s)" % (a, op, b)
@@ -134,7 +145,7 @@ def check(ctx):
         if r["escaped"] or r["status"] != 0 or r["out"].strip() != want:
             ctx.violation("cmp-display:" + text, text, "displays " + want, repr((r["status"], r["out"], r["escaped"])), "execute(%r)" % text)
         # membership: x in {b, c}
-        c = rng.choice(pools["num"] if ka[0] == "N" else (INSTS if ka[0] == "T" else
+        c = rng.choice(pools["num"] if ka[0] == "N" else (INSTS if ka[0] == "T" else AWARE if ka[0] == "Z" else
                        ([q for q in QTYS + DIMLESS if vals[q][0] == "Q" and vals[q][3] == ka[3]] or [b])))
         kc = vals[c]
         text2 = "(%s) in {%s, %s}" % (a, b, c)
